@@ -50,7 +50,7 @@ def setsets(xss):
 
 def load_universe(order):
     global _U
-    consts = dict(base_constants(order), PrintUniverse='TRUE', MaxReg=0, MaxLook=0, FamNames=strs(['chain']),
+    consts = dict(base_constants(order), PrintUniverse='TRUE', OffChoices='{{}}', MaxReg=0, MaxLook=0, FamNames=strs(['chain']),
                   RegSets=setsets([['g2']]), Ops=strs(['get']), KwChoices=setsets([['get']]), LookOps=strs(['get']))
     res = vlib.run_tlc('MC_C13', constants=consts, workers=1)
     vlib.tlc_must_pass(res, 'MC_C13 universe')
@@ -87,7 +87,7 @@ def replay_state(st, ops, out):
             br['glommer_created'] += 1
         elif a['a'] == 'reg':
             nreg += 1
-            env.register(a['r'], a['t'], a['ops'], a['exact'], idx)
+            env.register(a['r'], a['t'], a['ops'], a['exact'], idx, a.get('off', ()))
             memo = {k for k in memo if k[0] != a['r']}
             br['exact_registration' if a['exact'] else 'fuzzy_registration'] += 1
         else:
@@ -168,7 +168,7 @@ def runs_for(tier):
     q = tier == 'quick'
 
     def c(**kw):
-        d = dict(Mutant='""', Dynamic='FALSE', MaxNew=0, ReReg='FALSE', AllOrders='FALSE', PrintUniverse='FALSE')
+        d = dict(Mutant='""', Dynamic='FALSE', MaxNew=0, ReReg='FALSE', AllOrders='FALSE', PrintUniverse='FALSE', OffChoices='{{}}')
         d.update(kw)
         return d
     runs = [
@@ -184,9 +184,22 @@ def runs_for(tier):
         ('mixin order depth 4', c(Ops=strs(['get']), FamNames=strs(['mixin', 'diamond']),
                                   RegSets=setsets([['g2']] if q else [['g2'], ['default']]),
                                   MaxReg=4, MaxLook=1, KwChoices=setsets([['get']]), LookOps=strs(['get'])), ['get']),
-        ('isolation', c(Ops=strs(['get']), FamNames=strs(['chain']),
+        # Glommers created before / after registrations on the other registries; 'assign' stands for the operations a
+        # Glommer takes over from the default registry at construction
+        ('isolation', c(Ops=strs(['get', 'assign']), FamNames=strs(['chain']),
                         RegSets=setsets([['default', 'g1', 'g2']]), Dynamic='TRUE', MaxNew=2, MaxReg=1 if q else 2,
-                        MaxLook=1, KwChoices=setsets([['get']]), LookOps=strs(['get'])), ['get']),
+                        MaxLook=1, KwChoices=setsets([['get', 'assign']]), LookOps=strs(['get', 'assign'] if q else ['assign'])), ['get', 'assign']),
+    ]
+    # a type's own entry: lookup, then an exact registration of the same type that names only ANOTHER op (the looked-up
+    # op is filled in by autodiscovery), then the same lookup again; handlers passed as False
+    runs += [
+        ('own entry: memo vs partial exact registration, False handlers',
+         c(Ops=strs(['get', 'iterate']), FamNames=strs(['own']), RegSets=setsets([['default'], ['g1']]), MaxReg=1, MaxLook=2,
+           KwChoices=setsets([['iterate']]), OffChoices='{{}, {"iterate"}}', LookOps=strs(['get', 'iterate'])), ['get', 'iterate']),
+        ('own entry: autodiscovered False below a registered ancestor',
+         c(Ops=strs(['get', 'iterate']), FamNames=strs(['ownchain']), RegSets=setsets([['default'], ['g2']] if q else each),
+           MaxReg=2, MaxLook=1, KwChoices=setsets([['iterate'], ['get']]), OffChoices='{{}}' if q else '{{}, {"iterate"}}',
+           LookOps=strs(['iterate'] if q else ['get', 'iterate'])), ['get', 'iterate']),
     ]
     if q:
         runs += [('lookup history', c(Ops=strs(['get', 'keys']), FamNames=strs(['chain']), RegSets=setsets([['default'], ['g2']]),
@@ -212,7 +225,7 @@ def runs_for(tier):
 # ---- spec mutants: TLC must report the named law violated ------------------------------------------
 def mutant_runs():
     def c(**kw):
-        d = dict(Dynamic='FALSE', MaxNew=0, ReReg='FALSE', AllOrders='FALSE', PrintUniverse='FALSE',
+        d = dict(Dynamic='FALSE', MaxNew=0, ReReg='FALSE', AllOrders='FALSE', PrintUniverse='FALSE', OffChoices='{{}}',
                  Ops=strs(['get', 'keys']), FamNames=strs(['chain']), RegSets=setsets([['g2']]), MaxReg=2, MaxLook=2,
                  KwChoices=setsets([['get', 'keys'], ['get']]), LookOps=strs(['get', 'keys']))
         d.update(kw)
@@ -224,6 +237,12 @@ def mutant_runs():
         ('shallow_closest', {'Nearest', 'HandedOut'}, c(Mutant='"shallow_closest"')),
         ('shared_glommer', {'Isolation', 'Untouched', 'Nearest', 'HandedOut'},
          c(Mutant='"shared_glommer"', RegSets=setsets([['default', 'g1']]), MaxLook=0)),
+        ('partial_reset', {'Coherent', 'HandedOut'},
+         c(Mutant='"partial_reset"', Ops=strs(['get', 'iterate']), FamNames=strs(['own']), RegSets=setsets([['default']]), MaxReg=1,
+           KwChoices=setsets([['iterate']]), LookOps=strs(['get', 'iterate']))),
+        ('false_falls_through', {'Nearest', 'HandedOut'},
+         c(Mutant='"false_falls_through"', Ops=strs(['get', 'iterate']), FamNames=strs(['own']), RegSets=setsets([['default']]), MaxReg=1,
+           MaxLook=0, KwChoices=setsets([['iterate']]), OffChoices='{{}, {"iterate"}}', LookOps=strs(['iterate']))),
         # the mechanism before the repairs 8de08eb / 7341a6a
         ('first_match_dfs (_ObjStyleKeys sibling)', {'Nearest'},
          c(Mutant='"first_match_dfs"', Ops=strs(['get']), RegSets=setsets([['default']]), MaxReg=1, MaxLook=0,
@@ -274,6 +293,7 @@ def record_behaviour(u, names, rng):
     related = [n for n in names if any(issubclass(u.real[n], u.real[f]) for f in fam)]
     objs = related + ['dict', 'list', 'tuple', 'OrderedDict', 'object']
     events = []
+    last = None
     for r in regs:
         if r != 'default' and rng.random() < 0.5:
             env.new(r)
@@ -287,14 +307,20 @@ def record_behaviour(u, names, rng):
             continue
         if rng.random() < 0.5:
             t = rng.choice(fam) if rng.random() < 0.93 else rng.choice(['object', 'dict', 'list'])
+            if last and last[0] == r and last[1] in names and rng.random() < 0.35:
+                t = last[1]                  # the type just looked up gets its own registration
             ops = [op for op in ALL_OPS if rng.random() < 0.4]
-            exact = rng.random() < 0.25
-            env.register(r, t, ops, exact, n)
+            off = [op for op in ops if rng.random() < 0.12]          # op=False: "not supported"
+            exact = rng.random() < 0.3
+            env.register(r, t, ops, exact, n, off)
             p = env.project(r, ALL_OPS)
-            events.append(dict(a='reg', r=r, t=t, ops=ops, exact=exact, tree=p['tree'], map=p['map']))
+            events.append(dict(a='reg', r=r, t=t, ops=ops, exact=exact, off=off, tree=p['tree'], map=p['map']))
         else:
             t = rng.choice(objs)
             op = rng.choice(ALL_OPS)
+            if last and last[0] == r and rng.random() < 0.35:
+                t, op = last[1], last[2]     # the same lookup again (memo / effect of a registration in between)
+            last = (r, t, op)
             sig = env.observe(r, op, t)
             # an effect no handler of this operation can have (e.g. a handler of another operation ran)
             # is recorded as such and rejected by the specification
@@ -519,8 +545,8 @@ def replay(path):
             env.new(a['r'])
             print('%2d %s = Glommer(%s)' % (idx, a['r'], '' if a['r'] == 'g1' else 'register_default_types=False'))
         elif a['a'] == 'reg':
-            env.register(a['r'], a['t'], a['ops'], a['exact'], idx)
-            print('%2d register(%s, %s%s) on %s' % (idx, a['t'], ', '.join('%s=h%d' % (o, idx) for o in a['ops']),
+            env.register(a['r'], a['t'], a['ops'], a['exact'], idx, a.get('off', ()))
+            print('%2d register(%s, %s%s) on %s' % (idx, a['t'], ', '.join(('%s=False' % o) if o in a.get('off', ()) else '%s=h%d' % (o, idx) for o in a['ops']),
                                                       ', exact=True' if a['exact'] else '', a['r']))
         else:
             sig = env.observe(a['r'], a['op'], a['t'])
